@@ -1,7 +1,6 @@
 package rules
 
 import (
-	"strings"
 
 	. "abverif/internal/engine"
 
@@ -164,31 +163,7 @@ func (c *Ctx) errPropagatedSentinel(call ssa.CallInstruction) (bool, string) {
 		if rel.Op.String() == "==" {
 			nonNil = b.Succs[1]
 		}
-		isRetOfE := func(i ssa.Instruction) bool {
-			ret, ok := i.(*ssa.Return)
-			if !ok {
-				return false
-			}
-			for _, rv := range ret.Results {
-				if flowsTo(e, rv, 0) {
-					return true
-				}
-				if wc, _ := CallOf(rv); wc != nil && (strings.Contains(Callee(wc), "errors.Wrap") || strings.Contains(Callee(wc), "errors.WithMessage") || Callee(wc) == "fmt.Errorf" || strings.HasSuffix(Callee(wc), "errors.Errorf")) {
-					for _, a := range wc.Common().Args {
-						if flowsTo(e, a, 0) {
-							return true
-						}
-						// varargs
-						for _, el := range varargElems(a) {
-							if flowsTo(e, el, 0) {
-								return true
-							}
-						}
-					}
-				}
-			}
-			return false
-		}
+		isRetOfE := func(i ssa.Instruction) bool { return returnsErr(e, i) }
 		q := PathQuery{StartBlock: nonNil, StartPred: b, NonNil: map[ssa.Value]bool{e: true}, Cut: isRetOfE, Goal: IsReturn, Prune: func(from, to *ssa.BasicBlock) bool {
 			f, ok := EdgeFact(from, to)
 			if !ok {
